@@ -17,7 +17,8 @@ def run(ctx):
     res.assumptions += ["the encoder's code is deterministic given its members and arguments (no statics: checked; no I/O)"]
     res.not_decided += ["none: output can depend on history only through state that survives a call"]
     E.rule_state_reset(res, "C10-R1", "C10-R2", m)
-    st = [s for s in fb.statics.values() if s["name"].startswith(E.ENC) and not (s.get("const") or s.get("constexpr"))]
+    st = [s for s in fb.statics.values() if s["name"].startswith(E.ENC) and
+          (not (s.get("const") or s.get("constexpr")) or (s.get("has_init") and not s.get("constant_init")))]
     bad = []
     for f in m.methods:
         for n in f.nodes():
